@@ -329,6 +329,29 @@ theorem hmmer_reuse_only_compatible (ctx : Ctx) (maxE minS : Dec) (j : J) (y : H
   refine ⟨?_, by rw [r6, h5], r4, r5, x, hx, r3⟩
   simp [hmmerMayReuse, h1, h2, h3, h4, r1, r2]
 
+/-- FULL statement (does not hold, see the witness below): after a change of thresholds the reused
+    hits are exactly the hits a fresh run under the new thresholds reports. -/
+def hmmer_refilter_matches_fresh_full : Prop :=
+  ∀ (x y : HmmerRes) (maxE minS : Dec), x.refilter maxE minS = .reuse y → y.hits = hmmerFresh x.hits maxE minS
+
+/-- proved part: it holds whenever no stored hit lies exactly on a current threshold
+    (complement of the known-finding class KF-C11-refilter-boundary, `hmmerOnBoundary`) -/
+theorem hmmer_refilter_matches_fresh_partial (x y : HmmerRes) (maxE minS : Dec)
+    (h : x.refilter maxE minS = .reuse y) (hb : hmmerOnBoundary x.hits maxE minS = false) :
+    y.hits = hmmerFresh x.hits maxE minS := by
+  obtain ⟨_, _, h3, _⟩ := HmmerRes.refilter_inv h
+  rw [h3, hmmerReference_eq_fresh x.hits maxE minS hb]
+
+/-- negation witness: a hit scoring exactly the new minimum (50.0; stored under 25.0) survives
+    `refilter` (inclusive) although `build_hits` (exclusive) would not report it -/
+def exBoundary : HmmerRes := ⟨"rec1", ⟨1, -2⟩, ⟨25, 0⟩, "/db/pfam/35.0/Pfam-A.hmm", "fullhmmer",
+  [⟨"[100:130](+)", "hit0", "cdsA", "p450", ⟨1, -10⟩, ⟨5, 1⟩, "PF00067.25", "desc", 0, 10, "MAGICMAGIC"⟩]⟩
+theorem hmmer_refilter_boundary_witness : ¬ hmmer_refilter_matches_fresh_full := by
+  intro h
+  have h1 := h exBoundary { exBoundary with score := ⟨5, 1⟩ } ⟨1, -2⟩ ⟨5, 1⟩ (by decide +kernel)
+  revert h1
+  decide +kernel
+
 /-- `refilter` to a laxer threshold is refused -/
 theorem hmmer_refilter_lenient_refused (x : HmmerRes) (maxE minS : Dec)
     (h : Dec.lt x.evalue maxE = true ∨ Dec.lt minS x.score = true) : x.refilter maxE minS = .refuse .value := by
@@ -422,14 +445,57 @@ theorem regenerate_adds_same_features {α β} (enc : α → J) (dec : J → Outc
     ∃ y, dec (enc x) = .reuse y ∧ adds y = adds x :=
   ⟨x, h x hx, rfl⟩
 
-theorem sideloaded_adds_same_areas (ctx : Ctx) (x : Sideloaded) (hv : x.valid ctx = true) :
-    ∃ y, Sideloaded.regenerate ctx x.toJson = .reuse y
+theorem sideloaded_adds_same_areas (ctx : Ctx) (x : Sideloaded) (hv : x.valid ctx = true)
+    (requested : Option Sideloaded)
+    (hr : ∀ r, requested = some r → r.subregions = x.subregions ∧ r.protoclusters = x.protoclusters) :
+    ∃ y, Sideloaded.regenerate ctx requested x.toJson = .reuse y
       ∧ y.predictedSubregions = x.predictedSubregions ∧ y.predictedProtoclusters = x.predictedProtoclusters := by
   refine ⟨x, ?_, rfl, rfl⟩
   unfold Sideloaded.regenerate
   split
   · rename_i heq; simp [Sideloaded.toJson] at heq
-  · exact Sideloaded.fromJson_toJson ctx x hv
+  · rw [Sideloaded.fromJson_toJson ctx x hv]
+    cases requested with
+    | none => rfl
+    | some r => simp [(hr r rfl).1, (hr r rfl).2]
+
+/-- D53: annotations requested for the current run that differ from the stored ones stop the run;
+    a `reuse` therefore means: nothing requested, or exactly the stored annotations requested -/
+theorem sideloaded_changed_request_refused (ctx : Ctx) (j : J) (x r : Sideloaded)
+    (hj : Sideloaded.fromJson ctx j = .reuse x) (hne : j ≠ .obj [])
+    (h : r.subregions ≠ x.subregions ∨ r.protoclusters ≠ x.protoclusters) :
+    Sideloaded.regenerate ctx (some r) j = .refuse .runtime := by
+  unfold Sideloaded.regenerate
+  split
+  · exact absurd rfl hne
+  · rw [hj]
+    cases h with
+    | inl h => simp [h]
+    | inr h => simp [h]
+
+theorem sideloaded_reuse_only_same_request (ctx : Ctx) (requested : Option Sideloaded) (j : J) (x : Sideloaded)
+    (h : Sideloaded.regenerate ctx requested j = .reuse x) :
+    Sideloaded.fromJson ctx j = .reuse x
+    ∧ ∀ r, requested = some r → r.subregions = x.subregions ∧ r.protoclusters = x.protoclusters := by
+  unfold Sideloaded.regenerate at h
+  split at h
+  · simp at h
+  · cases hy : Sideloaded.fromJson ctx j with
+    | reuse y =>
+      rw [hy] at h
+      cases requested with
+      | none => simp at h; subst h; exact ⟨rfl, fun r hr => by cases hr⟩
+      | some r =>
+        simp only at h
+        split at h
+        · simp at h
+        · rename_i hc
+          simp at h; subst h
+          refine ⟨rfl, fun r' hr' => ?_⟩
+          cases hr'
+          simpa using hc
+    | discard => rw [hy] at h; simp at h
+    | refuse e => rw [hy] at h; simp at h
 
 /-- the protoclusters handed to the record keep location, core, product, cutoff, … — only the
     record's own numbering is absent until they are added again -/
